@@ -278,7 +278,7 @@ with index_bang_ops (fuel : nat) (op : bop) (a : option mty) (vs : list value) (
         os <- mapM_opt (index_value n) vs ;;
         s <- state ;;
         let '(ds, t) := bang_post s op a (combine (map value_rng vs) os) in
-        emit ds ;;
+        iterM (fun d => err (fst d) DOperand) ds ;;      (* every diagnostic of bang_post is of class DOperand *)
         lift t
       end
     end
